@@ -13,7 +13,7 @@ BASE_CONSTS = {
     "Fam": "<- FamOps", "LitPool": "<- LitsSmall", "Names": "<- NamesTop", "ModNames": "<- NamesMod",
     "FldNames": "<- Flds3", "KeyPool": "<- Keys", "SigPool": "<- Sigs", "TplPool": "<- Tpls",
     "SinglePool": "<- Singles", "BinOps": "<- OpsAll", "CastTys": "<- AllCasts", "TyNames": "<- TyAll",
-    "MaxD": "3", "MaxN": "3", "MaxStk": "2", "MaxStmts": "1", "MaxModStmts": "1", "MaxCtx": "1", "Ill0": "1", "RunVM": "FALSE",
+    "Prelude": "<- NoPrelude", "MaxD": "3", "MaxN": "3", "MaxStk": "2", "MaxStmts": "1", "MaxModStmts": "1", "MaxCtx": "1", "Ill0": "1", "RunVM": "FALSE",
 }
 INVS = ["Agreement", "NoPanicAtEnd", "CleanAtEnd", "NoFuel", "PrefixStable", "Emit"]
 
